@@ -58,6 +58,7 @@ GEN_DEFAULTS = {
     'CtcBinOps': set(), 'CtcChains': set(), 'CtcArith': False, 'CtcEqShape': False, 'CtcMinFeatures': 1, 'CtcGrow': 0, 'CtcSameName': False, 'Fmt': '', 'Fmt2': '', 'MaxEdits': 0, 'EditKinds': set(), 'MaxLevel': 40, 'Walks': 0, 'Seed': 0, 'Shape': '',
 }
 GEN_INVARIANTS = ['InvWellFormed', 'L1_KindPartition', 'L2_Preorder']
+GEN_PROPERTIES = ['BuildMonotone', 'HistGrows', 'BaseKept']     # action properties, checked in the FM generator runs
 SEM_INVARIANTS = ['L3_Count', 'L4_Core', 'L5_Atomic']
 
 
@@ -107,6 +108,9 @@ def run_generator(workdir, consts, module='FM', defaults=True, invariants=(), em
         cfg += ['CONSTRAINT ' + constraint]
     for inv in invariants:
         cfg.append('INVARIANT ' + inv)
+    if module == 'FM':
+        for pr in GEN_PROPERTIES:
+            cfg.append('PROPERTY ' + pr)
     if emit:
         cfg.append('INVARIANT ' + emit_name)
     cfg.append('CHECK_DEADLOCK FALSE')
